@@ -43,6 +43,7 @@ struct MatrixCallbacks : VCallbacks
         if (c < 0 || c >= n)
         {
             bad_labels.fetch_add(1, std::memory_order_relaxed);
+            non_sample_calls().fetch_add(1, std::memory_order_relaxed);
             return 0;
         }
         return c;
